@@ -1,10 +1,10 @@
 from __future__ import annotations
 
 import keyword
-from typing import TYPE_CHECKING, Any, ClassVar
+from typing import TYPE_CHECKING, Any, ClassVar, Optional
 
 from datamodel_code_generator.model import DataModel, DataModelFieldBase
-from datamodel_code_generator.model.base import UNDEFINED
+from datamodel_code_generator.model.base import UNDEFINED, ConstraintsBase
 from datamodel_code_generator.model.imports import (
     IMPORT_NOT_REQUIRED,
     IMPORT_NOT_REQUIRED_BACKPORT,
@@ -114,6 +114,7 @@ class TypedDict(DataModel):
 
 class DataModelField(DataModelFieldBase):
     DEFAULT_IMPORTS: ClassVar[tuple[Import, ...]] = (IMPORT_NOT_REQUIRED,)
+    constraints: Optional[ConstraintsBase] = None  # noqa: UP045
 
     @property
     def key(self) -> str:
